@@ -15,23 +15,22 @@ P['C20'] = dict(
 _utf8 = 'harness/k_utf8.cpp'
 P['C16'] = dict(
     level_text='Every byte string up to the stated length is covered by the solver for each validator (validate_mqtt_utf8, validate_topic_name, validate_topic_alias_name, validate_topic_filter, validate_shared_topic_filter) against independent recognisers written from RFC 3629 and MQTT 5 1.5.4/4.7/4.8.2; all single-code-point encodings (1-4 bytes); the 65535/65536 length boundary.',
-    level_note='Bounds: symir all strings <= 4 (quick) / 6 (thorough) bytes plus all single code points; $share/ prefix + <= 5 / 7 free bytes; CBMC cross-check all strings <= 2 / 3 bytes (CBMC needs 85 s at 3 bytes, 25 min at 4). Longer strings only at the two boundary lengths with concrete filler. Reference recognisers are hand-written. Request-level use of the validators is covered with C15.',
+    level_note='Bounds: symir all strings <= 4 (quick) / 7 (thorough) bytes plus all single code points; $share/ prefix + <= 5 / 8 free bytes; CBMC cross-check all strings <= 2 / 3 bytes (CBMC needs 85 s at 3 bytes, 25 min at 4). Longer strings only at the two boundary lengths with concrete filler. Reference recognisers are hand-written. Request-level use of the validators is covered with C15.',
     assumptions=['reference recognisers transcribed by hand from RFC 3629 section 4 and MQTT 5.0 sections 1.5.4, 4.7.1, 4.7.3, 4.8.2', 'strings longer than the bound are covered only at lengths 65535 and 65536 (ASCII filler)'],
     jobs=[
-        dict(name='utf8_B', tu=_utf8, entry='h_utf8', engine='B', defs_quick={'VK_N': 4}, defs_thorough={'VK_N': 6}, reach=['accept', 'reject']),
-        dict(name='topic_name_B', tu=_utf8, entry='h_topic_name', engine='B', defs_quick={'VK_N': 4}, defs_thorough={'VK_N': 6}, reach=['accept', 'reject', 'wildcard']),
-        dict(name='topic_alias_name_B', tu=_utf8, entry='h_topic_alias_name', engine='B', defs_quick={'VK_N': 4}, defs_thorough={'VK_N': 6}, reach=['empty-accepted']),
-        dict(name='topic_filter_B', tu=_utf8, entry='h_topic_filter', engine='B', defs_quick={'VK_N': 4}, defs_thorough={'VK_N': 6}, reach=['accept', 'reject']),
-        dict(name='shared_B', tu=_utf8, entry='h_shared', engine='B', defs_quick={'VK_N': 4, 'VK_SHARE_FREE': 5}, defs_thorough={'VK_N': 6, 'VK_SHARE_FREE': 7}, reach=['accept', 'reject']),
-        dict(name='shared_prefix_B', tu=_utf8, entry='h_shared_prefix', engine='B', defs_quick={'VK_N': 4}, defs_thorough={'VK_N': 6}),
-        dict(name='single_cp_B', tu=_utf8, entry='h_single_cp', engine='B', defs_quick={'VK_N': 4}, defs_thorough={'VK_N': 6}, reach=['accept-4-byte', 'accept-3-byte', 'accept-2-byte', 'reject-4-byte']),
+        dict(name='utf8_B', tu=_utf8, entry='h_utf8', engine='B', defs_quick={'VK_N': 4}, defs_thorough={'VK_N': 7}, reach=['accept', 'reject']),
+        dict(name='topic_name_B', tu=_utf8, entry='h_topic_name', engine='B', defs_quick={'VK_N': 4}, defs_thorough={'VK_N': 7}, reach=['accept', 'reject', 'wildcard']),
+        dict(name='topic_alias_name_B', tu=_utf8, entry='h_topic_alias_name', engine='B', defs_quick={'VK_N': 4}, defs_thorough={'VK_N': 7}, reach=['empty-accepted']),
+        dict(name='topic_filter_B', tu=_utf8, entry='h_topic_filter', engine='B', defs_quick={'VK_N': 4}, defs_thorough={'VK_N': 7}, reach=['accept', 'reject']),
+        dict(name='shared_B', tu=_utf8, entry='h_shared', engine='B', defs_quick={'VK_N': 4, 'VK_SHARE_FREE': 5}, defs_thorough={'VK_N': 7, 'VK_SHARE_FREE': 8}, reach=['accept', 'reject']),
+        dict(name='shared_prefix_B', tu=_utf8, entry='h_shared_prefix', engine='B', defs_quick={'VK_N': 4}, defs_thorough={'VK_N': 7}),
+        dict(name='single_cp_B', tu=_utf8, entry='h_single_cp', engine='B', defs_quick={'VK_N': 4}, defs_thorough={'VK_N': 7}, reach=['accept-4-byte', 'accept-3-byte', 'accept-2-byte', 'reject-4-byte']),
         dict(name='len65536_B', tu=_utf8, entry='h_len_boundary', engine='B', defs={'VK_N': 2, 'VK_LEN': 65536}, reach=['reject'], max_insns=30_000_000, native=True),
         dict(name='len65535_B', tu=_utf8, entry='h_len_boundary', engine='B', defs={'VK_N': 2, 'VK_LEN': 65535}, reach=['accept'], max_insns=60_000_000),
         dict(name='len_shared_B', tu=_utf8, entry='h_len_shared', engine='B', defs={'VK_N': 2}, reach=['accept', 'reject'], max_insns=60_000_000, samples=8),
         dict(name='utf8_A', tu=_utf8, entry='h_utf8', engine='A', twin='utf8_B', defs_quick={'VK_N': 2}, defs_thorough={'VK_N': 3}, unwind=6, timeout=1500),
         dict(name='topic_name_A', tu=_utf8, entry='h_topic_name', engine='A', twin='topic_name_B', defs_quick={'VK_N': 2}, defs_thorough={'VK_N': 3}, unwind=6, timeout=1500, tiers=['thorough']),
         dict(name='topic_filter_A', tu=_utf8, entry='h_topic_filter', engine='A', twin='topic_filter_B', defs_quick={'VK_N': 2}, defs_thorough={'VK_N': 3}, unwind=6, timeout=1500),
-        dict(name='shared_A', tu=_utf8, entry='h_shared', engine='A', twin='shared_B', defs={'VK_N': 2, 'VK_SHARE_FREE': 1}, unwind=10, timeout=2400, tiers=['thorough']),
     ])
 
 _dh = 'harness/d_hostile.cpp'
